@@ -15,7 +15,7 @@ import sys
 import time
 
 VERIF = '/verif'
-EXTRA = {'C13c': ['C13', 'C14'], 'C15c': ['C15', 'C11'], 'C06d': ['C06', 'C03'], 'C14d': ['C14', 'C02'], 'C05k': ['C05', 'C19']}
+EXTRA = {'C13c': ['C13', 'C14'], 'C15c': ['C15', 'C11'], 'C06d': ['C06', 'C03'], 'C14d': ['C14', 'C02'], 'C05k': ['C05', 'C19'], 'C05l': ['C05', 'C19'], 'C02l': ['C02', 'C12'], 'C09l': ['C09', 'C04']}
 
 
 def sh(cmd, env=None, timeout=3600):
